@@ -262,6 +262,24 @@ class Summaries:
                     out.append(('v', e[1]))
             return tuple(out)
 
+        def _distinct_keys(a, b):
+            """two value keys that cannot denote the same value (constants, or one symbol with different offsets)"""
+            return isinstance(a, tuple) and isinstance(b, tuple) and len(a) == 3 and len(b) == 3 and a[0] == b[0] == 'n' \
+                and a[1] == b[1] and a[2] != b[2]
+
+        def carry_contains(ctx, c, nc, k, present):
+            """membership facts across one insert / remove of key k: k itself is present / absent in the new
+            version, what was known about provably different keys still holds"""
+            st = ctx.st
+            kk = k.key() if isinstance(k, V) else None
+            ck, nk = c.key(), nc.key()
+            if kk is not None:
+                for fk, val in list(st.vn.items()):
+                    if isinstance(fk, tuple) and len(fk) == 2 and fk[0] == 'fact' and isinstance(fk[1], tuple) and len(fk[1]) == 3 \
+                            and fk[1][0] == 'contains' and fk[1][1] == ck and _distinct_keys(fk[1][2], kk):
+                        st.vn[('fact', ('contains', nk, fk[1][2]))] = val
+                st.vn[('fact', ('contains', nk, kk))] = present
+
         def bool_fact(ctx, key):
             cur = ctx.st.vn.get(('fact', key))
             if cur is not None:
@@ -1328,6 +1346,8 @@ class Summaries:
         @reg('std::iter::Iterator::collect')
         def _(ctx):
             it = deref1(ctx, ctx.args[0])
+            if isinstance(it, StructV) and it.ty.startswith('std::ops::Range'):
+                it = range_iter(ctx, it)        # `(a..b).collect()`: the range is its own iterator
             rty = ctx.ret_ty
             st = ctx.st
             if is_str(rty):
@@ -1436,7 +1456,7 @@ class Summaries:
                         elif eng.prove_le(st, lo, hi) is True:
                             d = eng.num_sub(st, hi, lo, hi.ty)
                             ln = NumV(d.sym, d.k, 'usize')
-                return CollV(kind, rty, next(_c), length=ln, prov=('collect-range', lo, hi))
+                return CollV(kind, rty, next(_c), length=ln, prov=('collect-range', lo, hi, bool(incl), tuple(it.ops)))
             # any other source (characters of an unknown string, an opaque iterator ...): the adaptor
             # closures are analysed on an arbitrary element, which also summarises the elements
             el = None
@@ -1559,6 +1579,15 @@ class Summaries:
                 eng.write(ctx.st, r.path, StrV('', prov=('cleared',)), log=(r.path[0] == ('H', 'S')))
             return UNIT
 
+        @regx(r'^(std|core)::char::convert::<impl (std|core)::convert::From<char> for (u32|u64|u128)>::from$')
+        def _(ctx):
+            # the code point of the character (same as `c as u32`)
+            v = deref(ctx, ctx.args[0])
+            if isinstance(v, CharV):
+                n = eng.char_num(ctx.st, v)
+                return NumV(n.sym, n.k, ctx.ret_ty) if isinstance(n, NumV) else eng.mk_default(ctx.st, ctx.ret_ty)
+            return eng.mk_default(ctx.st, ctx.ret_ty)
+
         @reg('<std::string::String as std::convert::From<char>>::from')
         def _(ctx):
             v = deref(ctx, ctx.args[0])
@@ -1644,6 +1673,41 @@ class Summaries:
                 return out_
             return fork_opt(ctx, ctx.args[0], dflt, lambda s, p: p)
 
+        @regx(r'^(std|core)::convert::num::(ptr_try_from_impls::)?<impl (std|core)::convert::TryFrom<(\w+)> for (\w+)>::try_from$')
+        def _(ctx):
+            # checked integer conversion: Ok(the same number) exactly when it fits the target type
+            import re as _re
+            m = _re.search(r'TryFrom<(\w+)> for (\w+)>::try_from$', ctx.callee)
+            dst = m.group(2)
+            v = ctx.args[0]
+            rty = ctx.ret_ty
+            st = ctx.st
+            if not (isinstance(v, NumV) and dst in INT_RANGES):
+                return eng.mk_default(st, rty)
+            lo, hi = INT_RANGES[dst]
+
+            def ok_(val):
+                return EnumV(rty, {0}, {0: StructV('Ok', {'0': NumV(val.sym, val.k, dst)})})
+
+            def err_():
+                return EnumV(rty, {1}, {1: StructV('Err', {'0': OpaqueV('TryFromIntError', next(_c))})})
+            blo, bhi = eng.bounds(st, v)
+            if blo >= lo and bhi <= hi:
+                return ok_(v)
+            if bhi < lo or blo > hi:
+                return err_()
+            out = []
+            s_ok = st
+            s_hi = st.fork()
+            s_lo = st.fork()
+            if eng.assume_le(s_ok, NumV(None, lo, v.ty), v) and eng.assume_le(s_ok, v, NumV(None, hi, v.ty)):
+                out.append((s_ok, ok_(v)))
+            if bhi > hi and eng.assume_cmp(s_hi, 'gt', v, NumV(None, hi, v.ty)):
+                out.append((s_hi, err_()))
+            if blo < lo and eng.assume_cmp(s_lo, 'lt', v, NumV(None, lo, v.ty)):
+                out.append((s_lo, err_()))
+            return out
+
         @reg('std::result::Result::<T, E>::unwrap_or')
         def _(ctx):
             o = deref1(ctx, ctx.args[0])
@@ -1722,6 +1786,40 @@ class Summaries:
             f = ctx.args[1]
             rty = ctx.ret_ty
             return fork_opt(ctx, ctx.args[0], lambda s, p: none(rty), lambda s, p: call_closure(ctx, s, f, [p]))
+
+        @reg('std::option::Option::<T>::zip')
+        def _(ctx):
+            rty = ctx.ret_ty
+            b = ctx.args[1]
+            _h, targs = split_generic(rty)
+            tty = targs[0] if targs else 'tuple'
+            return fork_opt(ctx, ctx.args[0], lambda s, p: none(rty),
+                            lambda s, p: fork_opt(with_state(ctx, s), b, lambda s2, q: none(rty),
+                                                  lambda s2, q: some(rty, StructV(tty, {'0': p, '1': q}))))
+
+        @reg('std::option::Option::<T>::filter')
+        def _(ctx):
+            rty = ctx.ret_ty
+            f = ctx.args[1]
+
+            def keep(s, p):
+                out = []
+                for (s2, r) in call_closure(ctx, s, f, [mkref(s, p)]):
+                    tv = eng.eval_bool(s2, r) if isinstance(r, BoolV) else None
+                    if tv is True:
+                        out.append((s2, some(rty, p)))
+                    elif tv is False:
+                        out.append((s2, none(rty)))
+                    elif isinstance(r, BoolV):
+                        s3 = s2.fork()
+                        if eng.assume_bool(s2, r, True):
+                            out.append((s2, some(rty, p)))
+                        if eng.assume_bool(s3, r, False):
+                            out.append((s3, none(rty)))
+                    else:
+                        out.append((s2, opt_either(rty, p)))
+                return out
+            return fork_opt(ctx, ctx.args[0], lambda s, p: none(rty), keep)
 
         @reg('std::option::Option::<T>::is_some_and')
         def _(ctx):
@@ -1956,7 +2054,7 @@ class Summaries:
             return BoolV(None, ('fact', ('refeq', next(_c))))
 
         @reg('<std::string::String as std::ops::Deref>::deref', 'std::string::String::as_str',
-             'std::str::<impl std::borrow::ToOwned for str>::to_owned', '<std::string::String as std::clone::Clone>::clone',
+             'std::str::<impl std::borrow::ToOwned for str>::to_owned', '<str as std::borrow::ToOwned>::to_owned', '<std::string::String as std::clone::Clone>::clone',
              '<std::borrow::Cow<\'_, B> as std::ops::Deref>::deref', 'std::borrow::Cow::<\'_, B>::into_owned',
              '<str as std::string::ToString>::to_string', '<std::string::String as std::convert::From<&str>>::from')
         def _(ctx):
@@ -1983,6 +2081,19 @@ class Summaries:
                     return StrV('true' if cur else 'false', prov=('bool',))
                 return StrV(None, oid=next(_c), prov=('bool', v))
             return StrV(None, oid=next(_c), prov=('display', getattr(v, 'key', lambda: None)()))
+
+        @regx(r'^(core|std)::char::methods::<impl char>::encode_utf8$')
+        def _(ctx):
+            # the UTF-8 text of one character (the buffer only lends the storage)
+            v = deref(ctx, ctx.args[0])
+            if isinstance(v, CharV):
+                if v.known is not None:
+                    return StrV(v.known, prov=('char',))
+                s = StrV(None, oid=next(_c), prov=('char', v.key()))
+                ctx.st.vn[('nonempty', s.oid)] = True
+                ctx.st.vn[('firstchar', s.oid)] = v
+                return s
+            return StrV(None, oid=next(_c), prov=('display', None))
 
         @reg('std::string::String::new')
         def _(ctx):
@@ -2078,6 +2189,37 @@ class Summaries:
                 return bool_fact(ctx, ('startswith', h.oid, n.known))
             return BoolV(None, ('fact', ('startswith', next(_c))))
 
+        @regx(r'^core::str::<impl str>::strip_(prefix|suffix)$')
+        def _(ctx):
+            h = sval(ctx, ctx.args[0])
+            n = sval(ctx, ctx.args[1])
+            rty = ctx.ret_ty
+            pre = ctx.callee.endswith('strip_prefix')
+            if isinstance(n, CharV) and n.known is not None:
+                n = StrV(n.known)
+            if not (isinstance(h, StrV) and isinstance(n, StrV) and n.known is not None):
+                return opt_either(rty, StrV(None, oid=next(_c), prov=('strip', None)))
+
+            def cut(v):
+                if pre:
+                    return v[len(n.known):] if v.startswith(n.known) else None
+                return v[:len(v) - len(n.known)] if v.endswith(n.known) else None
+            if h.known is not None:
+                r = cut(h.known)
+                return none(rty) if r is None else some(rty, StrV(r, prov=('strip', h.known)))
+            if h.prov and h.prov[0] in ('table-value', 'table-value-slice'):
+                # some value of a constant table: both outcomes, the remainder ranges over the members that match
+                vals = h.prov[2]
+                hit = tuple(cut(v) for v in vals if cut(v) is not None)
+                miss = tuple(v for v in vals if cut(v) is None)
+                out = []
+                if hit:
+                    out.append((ctx.st if not miss else ctx.st.fork(), some(rty, StrV(None, oid=next(_c), prov=('table-value-slice', h.prov[1], hit)))))
+                if miss:
+                    out.append((ctx.st, none(rty)))
+                return out
+            return opt_either(rty, StrV(None, oid=next(_c), prov=('strip', h.key())))
+
         @reg('core::slice::<impl [T]>::contains')
         def _(ctx):
             path, c = coll_at(ctx, ctx.args[0])
@@ -2087,7 +2229,7 @@ class Summaries:
                 return BoolV(any(e.known == x.known for e in c.known))
             if c.known is not None and isinstance(x, NumV) and x.sym is None and all(isinstance(e, NumV) and e.sym is None for e in c.known):
                 return BoolV(any(e.k == x.k for e in c.known))
-            return bool_fact(ctx, ('slicecontains', c.key(), x.key() if isinstance(x, V) else None))
+            return bool_fact(ctx, ('contains', c.key(), x.key() if isinstance(x, V) else None))
 
         @regx(r'^<char as std::convert::From<u8>>::from$|^std::char::convert::<impl std::convert::From<u8> for char>::from$|^core::char::convert::<impl std::convert::From<u8> for char>::from$')
         def _(ctx):
@@ -2140,7 +2282,8 @@ class Summaries:
                 st.vn[('parse-of', r.eid)] = (s, oty)
             return r
 
-        @reg('<std::string::String as std::ops::Index<I>>::index')
+        @reg('<std::string::String as std::ops::Index<I>>::index', 'core::str::traits::<impl std::ops::Index<I> for str>::index',
+             'std::str::traits::<impl std::ops::Index<I> for str>::index')
         def _(ctx):
             s = sval(ctx, ctx.args[0])
             r = ctx.args[1]
@@ -2160,7 +2303,7 @@ class Summaries:
                         ok = True
                     except Exception:
                         ok = False
-            elif isinstance(s, StrV) and s.prov and s.prov[0] == 'table-value':
+            elif isinstance(s, StrV) and s.prov and s.prov[0] in ('table-value', 'table-value-slice'):
                 # value of a constant table: every member is checked
                 vals = s.prov[2]
                 l = lo.k if isinstance(lo, NumV) and lo.sym is None else (0 if lo is None else None)
@@ -2394,16 +2537,22 @@ class Summaries:
         def _(ctx):
             r, k, v = ctx.args
             path, c = coll_at(ctx, r, 'map')
+            # known to be absent before this insert (`if !m.contains_key(&k) { m.insert(k, blank) }` is a
+            # materialisation, like `entry(k).or_insert(blank)`): recorded for the rules
+            absent = isinstance(k, V) and ctx.st.vn.get(('fact', ('contains', c.key(), k.key()))) is False
+            ctx.st.vn['ins-absent'] = absent
+            if absent:
+                ctx.st.log(('note', 'absent-before-insert', spath(path), k))
             log(ctx, 'map.insert', spath(path), k, v)
+            ctx.st.vn.pop('ins-absent', None)
             known = None
             if c.known is not None and _is_const(k):
                 kn = [kv for kv in c.known if not (_is_const(kv[0]) and kv[0].key() == k.key())]
                 kn.append((k, v))
                 known = tuple(kn)
             nc = bump(ctx, path, c, known=known, length=None)
-            if isinstance(k, V):
-                # the key is present from now on (until the map changes again)
-                ctx.st.vn[('fact', ('contains', nc.key(), k.key()))] = True
+            # the key is present from now on (until the map changes again)
+            carry_contains(ctx, c, nc, k, True)
             return OpaqueV(ctx.ret_ty, next(_c))
 
         def _is_const(v):
@@ -2533,7 +2682,8 @@ class Summaries:
                 val = val.evolve(prov=('removed', spath(path), k))
             elif isinstance(val, StructV):
                 val = StructV(val.ty, val.fields, prov=('removed', spath(path), k))
-            bump(ctx, path, c, known=None, length=None)
+            nc = bump(ctx, path, c, known=None, length=None)
+            carry_contains(ctx, c, nc, k, False)
             if cur is True:
                 return some(rty, val)
             if cur is False:
@@ -2765,7 +2915,8 @@ class Summaries:
             known = None
             if c.known is not None and _is_const(v):
                 known = tuple(x for x in c.known if x.key() != v.key()) + (v,)
-            bump(ctx, path, c, known=known, length=None)
+            nc = bump(ctx, path, c, known=known, length=None)
+            carry_contains(ctx, c, nc, v, True)
             return BoolV(None, ('fact', ('setinsert', next(_c))))
 
         @reg('std::collections::HashSet::<T, S, A>::remove')
@@ -2778,7 +2929,8 @@ class Summaries:
                 had = any(x.key() == vv.key() for x in c.known)
                 bump(ctx, path, c, known=tuple(x for x in c.known if x.key() != vv.key()), length=None)
                 return BoolV(had)
-            bump(ctx, path, c, known=None, length=None)
+            nc = bump(ctx, path, c, known=None, length=None)
+            carry_contains(ctx, c, nc, vv, False)
             return BoolV(None, ('fact', ('setremove', next(_c))))
 
         @reg('std::collections::HashSet::<T, S, A>::contains')
@@ -2907,7 +3059,8 @@ class Summaries:
                 eng.write(ctx.st, path, c.evolve(length=ln), log=False)
             return ln
 
-        @reg('core::slice::<impl [T]>::is_empty')
+        @reg('core::slice::<impl [T]>::is_empty', 'std::vec::Vec::<T, A>::is_empty', 'std::collections::HashMap::<K, V, S, A>::is_empty',
+             'std::collections::HashSet::<T, S, A>::is_empty', 'std::collections::VecDeque::<T, A>::is_empty')
         def _(ctx):
             path, c = coll_at(ctx, ctx.args[0])
             if c.known is not None:
